@@ -203,7 +203,14 @@ def handleSize (case : Nat) (j : Json) : IO Unit := do
 def handle (j : Json) : IO Unit := do
   let case := jnat (jget j "case")
   let kind := jstr (jget j "kind")
-  if kind == "key" then
+  if kind == "stall" then
+    -- 64 senders of one client on two processors: every window of the recorded admissions is within burst + rate x t
+    -- (the harness reports the worst excess; `bucket_withinBound` is the statement about the model)
+    let impl := jget j "impl"
+    let ex := jint (jget impl "worst_excess_milli")
+    emit case (ex ≤ 0) (ex ≤ 0) "stall" (if ex ≤ 0 then "" else "rate-limit-bound-exceeded")
+      (if ex ≤ 0 then "" else s!"per-ip 60000/min burst 3, 64 senders on 2 processors, {jnat (jget impl "asked")} asks: {jnat (jget impl "worst_count")} admitted within {jnat (jget impl "worst_window_us")} us — {ex} thousandths of a request more than burst + rate x t")
+  else if kind == "key" then
     -- one client address, three TCP connections: one bucket key (`clientKey` of the fixed variant is the address alone)
     let keys := jstrList (jget (jget j "impl") "keys")
     let host := jstr (jget j "host")
